@@ -30,6 +30,12 @@
 
       poly1305_key_gen(key, nonce):  counter = 0; block = chacha20_block(key, counter, nonce); return block[0..31]
 
+  Domain.  RFC 8439 §2.8 limits the plaintext to 2^38 − 64 bytes (the 32-bit block counter starts at 1) and AAD and
+  ciphertext lengths to 2^64 − 1.  The crate enforces neither limit (beyond u64 arithmetic); its ChaCha counter wraps
+  mod 2^32, and so does `Spec.ChaCha.blockAt`, so the Spec below is defined — and the theorems hold — for all data
+  lengths < 2^64, but it IS RFC 8439 only for data of at most 2^38 − 64 bytes (longer data would reuse block 0, the
+  one-time-key block, as keystream; callers must not do that).
+
   Decryption (§2.8, text): same construction on the received ciphertext; "the calculated tag is compared
   bitwise with the received tag"; the plaintext is released only if they are equal.
 -/
